@@ -145,7 +145,8 @@ SUBS = {"stacks": oracle, "grid": oracle}
 _raw_headers = st.lists(
     st.sampled_from(
         [["Content-Type", "text/plain"], ["Set-Cookie", "a=1; Path=/"], ["Set-Cookie", "b=2; HttpOnly"], ["Set-Cookie", "c=3; Expires=Wed, 21 Oct 2026 07:28:00 GMT"],
-         ["Link", "<a>; rel=next"], ["Link", "<b>; rel=prev"], ["Vary", "Accept"], ["Vary", "Cookie"], ["x-inner", "orig"], ["X-A", "1"], ["Cache-Control", "no-store"]]
+         ["Link", "<a>; rel=next"], ["Link", "<b>; rel=prev"], ["Vary", "Accept"], ["Vary", "Cookie"], ["x-inner", "orig"], ["X-A", "1"], ["Cache-Control", "no-store"],
+         ["Set-Cookie", "name=caf\xe9; Path=/"], ["Set-Cookie", "u=\xfc\xf1\xef"], ["X-Latin", "d\xe9j\xe0 vu"], ["Content-Disposition", "attachment; filename=\"r\xe9sum\xe9.txt\""]]
     ),
     max_size=5,
 )
@@ -186,7 +187,7 @@ def stack_case(draw):
 
 
 def grid_cases():
-    cookies = [["Set-Cookie", "a=1; Path=/"], ["Set-Cookie", "b=2; HttpOnly"]]
+    cookies = [["Set-Cookie", "a=1; Path=/"], ["Set-Cookie", "b=caf\xe9; HttpOnly"]]
     for n in range(0, 4):
         for returns in ("list", "tuple", "iter", "generator", "restart"):
             for nc in range(0, 3):
